@@ -52,6 +52,17 @@ let handle = function
     String.concat " " [show_list d; show_xr show_host (host_parse_x idna d); show_xr show_host (host_parse_opaque_x d)]
   (* the specification model (Spec/WhatwgHost.v), validated against the harness's transcription *)
   | ["spec6"; s] -> (match Spec.ipv6_parse (parse_list s) with Some a -> "ok:" ^ show_list a | None -> "fail")
+  (* model against specification model, directly: 1 = equal *)
+  | ["mvs6"; s] ->
+    let l = parse_list s in
+    let m = (match parse_ipv6addr (utf8_encode l) with XOk a -> "ok:" ^ show_list a | XErr _ -> "fail" | XPanic _ -> "PANIC" | XFuel -> "FUEL") in
+    let sp = (match Spec.ipv6_parse l with Some a -> "ok:" ^ show_list a | None -> "fail") in
+    if m = sp then "1" else "0:" ^ m ^ "/" ^ sp
+  | ["mvs4"; s] ->
+    let l = parse_list s in
+    let m = (match parse_ipv4addr l with XOk a -> "ok:" ^ show_n a | XErr _ -> "fail" | XPanic _ -> "PANIC" | XFuel -> "FUEL") in
+    let sp = (match Spec.ipv4_parse l with Some a -> "ok:" ^ show_n a | None -> "fail") in
+    if m = sp && ends_in_a_number l = Spec.ends_in_a_number l then "1" else "0:" ^ m ^ "/" ^ sp
   | ["specser"; a] -> show_list (Spec.ipv6_serialize (parse_list a))
   | ["spec4"; s] ->
     let l = parse_list s in
